@@ -303,6 +303,11 @@ func (its *PushPullHandler) pushOperations() errors.OrdaError {
 	}
 	its.currentCP.Sseq = its.datatypeDoc.Sseq.End
 	for _, op := range its.gotPushPullPack.Operations {
+		if its.clientDoc.GetType() != model.ClientType_VOLATILE && op.ID.GetCUID() != its.CUID {
+			// sequence numbers are per client: another client's id would corrupt that client's numbering
+			return errors.PushPullAbortionOfClient.New(its.ctx.L(),
+				fmt.Sprintf("operation %s does not belong to client %s", op.ID.ToString(), its.CUID))
+		}
 		switch {
 		case its.currentCP.Cseq+1 == op.ID.GetSeq():
 			its.currentCP.Sseq++
@@ -321,6 +326,12 @@ func (its *PushPullHandler) pushOperations() errors.OrdaError {
 }
 
 func (its *PushPullHandler) processSubscribeOrCreate(code pushPullCase) errors.OrdaError {
+	if code == caseUsedDUID &&
+		(its.datatypeDoc.CollectionNum != its.collectionDoc.Num || its.datatypeDoc.Key != its.Key) {
+		// the datatype id belongs to a datatype with another key or of another collection
+		return errors.PushPullAbortionOfClient.New(its.ctx.L(),
+			fmt.Sprintf("datatype id '%s' does not belong to '%s' in '%s'", its.DUID, its.Key, its.collectionDoc.Name))
+	}
 	if code == caseMatchKeyNotType {
 		// the key names a datatype of another type: it can be neither created, subscribed nor pushed to
 		msg := fmt.Sprintf("%s is a %s", its.Key, its.datatypeDoc.Type)
